@@ -178,6 +178,10 @@ pub(crate) fn mk_exec(n: usize, max_branches: usize, preemption_bound: Option<us
     super::execution::verif::mk_exec(n, max_branches, preemption_bound)
 }
 
+pub(crate) fn mk_exec_caps(n: usize, path_cap: usize, obj_cap: usize) -> super::Execution {
+    super::execution::verif::mk_exec_caps(n, path_cap, obj_cap)
+}
+
 pub(crate) fn enter<R>(e: &mut super::Execution, f: impl FnOnce() -> R) -> R {
     super::scheduler::verif::enter(e, f)
 }
